@@ -41,12 +41,11 @@ package xbuf
 //@   ensures all(j, int, 0 <= j && j < old(len(*b)) ==> (*b)[j] == old((*b)[j]))
 //@   ensures all(j, int, old(len(*b)) <= j && j < old(len(*b))+len(s) ==> (*b)[j] == s[j-old(len(*b))])
 //@   assigns *b
-//@   loop 1 invariant 0 <= phi1 && phi1 <= len(s) && len(sb) == len(s) && len(*b) == old(len(*b))+phi1
+//@   loop 1 invariant 0 <= loopcount(1) && loopcount(1) <= len(s) && len(sb) == len(s) && len(*b) == old(len(*b))+loopcount(1)
 //@   loop 1 invariant all(j, int, 0 <= j && j < len(s) ==> sb[j] == s[j])
 //@   loop 1 invariant all(j, int, 0 <= j && j < old(len(*b)) ==> (*b)[j] == old((*b)[j]))
-//@   loop 1 invariant all(j, int, old(len(*b)) <= j && j < old(len(*b))+phi1 ==> (*b)[j] == s[j-old(len(*b))])
+//@   loop 1 invariant all(j, int, old(len(*b)) <= j && j < old(len(*b))+loopcount(1) ==> (*b)[j] == s[j-old(len(*b))])
 //@   loop 1 modifies *b
-//@   loop 1 names i
 
 //@ func (*B).Sb
 //@   property C15
@@ -55,11 +54,10 @@ package xbuf
 //@   ensures all(j, int, 0 <= j && j < old(len(*b)) ==> (*b)[j] == old((*b)[j]))
 //@   ensures all(j, int, old(len(*b)) <= j && j < old(len(*b))+len(sb) ==> (*b)[j] == sb[j-old(len(*b))])
 //@   assigns *b
-//@   loop 1 invariant 0 <= phi1 && phi1 <= len(sb) && len(*b) == old(len(*b))+phi1
+//@   loop 1 invariant 0 <= loopcount(1) && loopcount(1) <= len(sb) && len(*b) == old(len(*b))+loopcount(1)
 //@   loop 1 invariant all(j, int, 0 <= j && j < old(len(*b)) ==> (*b)[j] == old((*b)[j]))
-//@   loop 1 invariant all(j, int, old(len(*b)) <= j && j < old(len(*b))+phi1 ==> (*b)[j] == sb[j-old(len(*b))])
+//@   loop 1 invariant all(j, int, old(len(*b)) <= j && j < old(len(*b))+loopcount(1) ==> (*b)[j] == sb[j-old(len(*b))])
 //@   loop 1 modifies *b
-//@   loop 1 names i
 
 //@ func (*B).Sn
 //@   property C15
@@ -69,12 +67,11 @@ package xbuf
 //@   ensures all(j, int, old(len(*b)) <= j && j < old(len(*b))+len(s) ==> (*b)[j] == s[j-old(len(*b))])
 //@   ensures all(j, int, old(len(*b))+len(s) <= j && j < old(len(*b))+n ==> (*b)[j] == 32)
 //@   assigns *b
-//@   loop 1 invariant 0 <= phi1 && phi1 <= len(s) && len(sb) == len(s) && len(*b) == old(len(*b))+phi1
+//@   loop 1 invariant 0 <= loopcount(1) && loopcount(1) <= len(s) && len(sb) == len(s) && len(*b) == old(len(*b))+loopcount(1)
 //@   loop 1 invariant all(j, int, 0 <= j && j < len(s) ==> sb[j] == s[j])
 //@   loop 1 invariant all(j, int, 0 <= j && j < old(len(*b)) ==> (*b)[j] == old((*b)[j]))
-//@   loop 1 invariant all(j, int, old(len(*b)) <= j && j < old(len(*b))+phi1 ==> (*b)[j] == s[j-old(len(*b))])
+//@   loop 1 invariant all(j, int, old(len(*b)) <= j && j < old(len(*b))+loopcount(1) ==> (*b)[j] == s[j-old(len(*b))])
 //@   loop 1 modifies *b
-//@   loop 1 names i
 //@   loop 2 invariant len(s) <= phi1 && phi1 <= n && len(sb) == len(s) && len(*b) == old(len(*b))+phi1
 //@   loop 2 invariant all(j, int, 0 <= j && j < old(len(*b)) ==> (*b)[j] == old((*b)[j]))
 //@   loop 2 invariant all(j, int, old(len(*b)) <= j && j < old(len(*b))+len(s) ==> (*b)[j] == s[j-old(len(*b))])
